@@ -163,9 +163,25 @@ func (e *Engine) intrinsic(fn *ssa.Function, args []Value) (Value, bool) {
 		}
 		return e.newErr("joined", wrapped, true), true
 	case "sort.Slice", "sort.SliceStable":
-		e.sortSlice(args[0].(Iface).V.(Slice), func(i, j int) bool {
+		sl := args[0].(Iface).V.(Slice)
+		less := func(i, j int) bool {
 			return e.branch(e.call(args[1], []Value{int64(i), int64(j)}))
-		})
+		}
+		e.sortSlice(sl, less)
+		if name == "sort.Slice" {
+			// sort.Slice is NOT stable: elements that compare equal may come out in either
+			// order. After the stable pass every adjacent tie forks over keeping or swapping it.
+			for i := 0; i+1 < sl.Len; i++ {
+				if !less(i, i+1) && !less(i+1, i) && e.chooseN(2) == 1 {
+					if sl.O.Frozen {
+						panic(frozenWrite{"sort swaps elements of frozen backing array (" + sl.O.Tag + ")"})
+					}
+					arr := sl.O.Val.(*Agg)
+					arr.F[sl.Off+i], arr.F[sl.Off+i+1] = arr.F[sl.Off+i+1], arr.F[sl.Off+i]
+					e.draws = append(e.draws, &Draw{Kind: "order", Name: "unstable-sort-tie", Val: 1})
+				}
+			}
+		}
 		return nil, true
 	case "sort.Strings":
 		sl := args[0].(Slice)
@@ -251,6 +267,11 @@ func (e *Engine) intrinsic(fn *ssa.Function, args []Value) (Value, bool) {
 				return mkTerm("(fp.abs "+t.S+")", t.Sort), true
 			}
 			return mkTerm("(fp.roundToIntegral "+mode+" "+t.S+")", t.Sort), true
+		}
+	}
+	if strings.HasPrefix(name, "reflect.") || strings.HasPrefix(name, "(reflect.Value).") {
+		if r, ok := e.reflectIntrinsic(name, args); ok {
+			return r, true
 		}
 	}
 	if strings.Contains(name, "regexp.") {
@@ -1194,4 +1215,125 @@ func (e *Engine) regexpIntrinsic(name string, args []Value) (Value, bool) {
 		return nativeRegexp(args[0]).String(), true
 	}
 	return nil, false
+}
+
+// ---------------------------------------------------------------- a minimal reflect model
+
+// ReflectVal is the engine's reflect.Value: a handle on an interface value. Only
+// ValueOf / IsValid / IsZero / IsNil / Kind / Len / Interface are given meaning.
+type ReflectVal struct{ it Iface }
+
+func (e *Engine) reflectIntrinsic(name string, args []Value) (Value, bool) {
+	switch name {
+	case "reflect.ValueOf":
+		it, _ := args[0].(Iface)
+		return &ReflectVal{it}, true
+	case "(reflect.Value).IsValid":
+		return args[0].(*ReflectVal).it.T != nil, true
+	case "(reflect.Value).Interface":
+		return args[0].(*ReflectVal).it, true
+	case "(reflect.Value).IsZero":
+		rv := args[0].(*ReflectVal)
+		if rv.it.T == nil {
+			panic(goPanic{msg: "reflect: call of reflect.Value.IsZero on zero Value"})
+		}
+		return boolVal(e.deepEqual(rv.it.V, zero(rv.it.T), deepOpts{})), true
+	case "(reflect.Value).IsNil":
+		rv := args[0].(*ReflectVal)
+		switch x := rv.it.V.(type) {
+		case Pointer:
+			return x.O == nil, true
+		case Slice:
+			return x.O == nil, true
+		case *MapV:
+			return x == nil, true
+		case *Closure:
+			return x == nil, true
+		case Iface:
+			return x.T == nil, true
+		}
+		panic(goPanic{msg: "reflect: call of reflect.Value.IsNil on a non-nillable value"})
+	case "(reflect.Value).Len":
+		rv := args[0].(*ReflectVal)
+		switch x := rv.it.V.(type) {
+		case Slice:
+			return int64(x.Len), true
+		case *MapV:
+			if x == nil {
+				return int64(0), true
+			}
+			return int64(len(x.Entries)), true
+		case string:
+			return int64(len(x)), true
+		case *Agg:
+			return int64(len(x.F)), true
+		}
+		panic(abort{"reflect.Value.Len on unsupported value"})
+	case "(reflect.Value).Kind":
+		rv := args[0].(*ReflectVal)
+		if rv.it.T == nil {
+			return int64(0), true
+		}
+		return int64(reflectKind(rv.it.T)), true
+	case "reflect.TypeOf":
+		panic(abort{"reflect.TypeOf"})
+	}
+	return nil, false
+}
+
+func reflectKind(t types.Type) int {
+	switch u := t.Underlying().(type) {
+	case *types.Basic:
+		switch u.Kind() {
+		case types.Bool:
+			return 1
+		case types.Int:
+			return 2
+		case types.Int8:
+			return 3
+		case types.Int16:
+			return 4
+		case types.Int32:
+			return 5
+		case types.Int64:
+			return 6
+		case types.Uint:
+			return 7
+		case types.Uint8:
+			return 8
+		case types.Uint16:
+			return 9
+		case types.Uint32:
+			return 10
+		case types.Uint64:
+			return 11
+		case types.Uintptr:
+			return 12
+		case types.Float32:
+			return 13
+		case types.Float64:
+			return 14
+		case types.String:
+			return 24
+		case types.UnsafePointer:
+			return 26
+		}
+	case *types.Array:
+		return 17
+	case *types.Chan:
+		return 18
+	case *types.Signature:
+		return 19
+	case *types.Interface:
+		return 20
+	case *types.Map:
+		return 21
+	case *types.Pointer:
+		return 22
+	case *types.Slice:
+		return 23
+	case *types.Struct:
+		return 25
+	}
+	return 0
 }
